@@ -23,6 +23,7 @@ from concurrent.futures import ProcessPoolExecutor, as_completed
 import multiprocessing as mp
 
 VERIF = os.path.dirname(os.path.dirname(os.path.abspath(__file__)))
+OUT = os.environ.get('VERIF_OUT', VERIF)      # evidence/ and replays/ go here (mutant runs use a scratch dir)
 RUN_WALL_CAP = 240          # seconds per single run before the watchdog kills the worker
 
 
@@ -41,6 +42,9 @@ def _worker_init():
         dn = os.open(os.devnull, os.O_WRONLY)
         os.dup2(dn, 1)
         sys.stdout = open(os.devnull, 'w')
+        # engine callbacks that hit the injected broken stdout print 'Exception ignored' noise on fd 2
+        if not os.environ.get('VERIF_WORKER_STDERR'):
+            os.dup2(dn, 2)
     except Exception:
         pass
 
@@ -122,7 +126,7 @@ def shrink(mod, case, viol, props, budget_s=60):
 
 
 def write_replay(mod, case, viol, tag):
-    d = os.path.join(VERIF, 'replays')
+    d = os.path.join(OUT, 'replays')
     os.makedirs(d, exist_ok=True)
     path = os.path.join(d, '%s_%s_%s.json' % (viol['prop'], mod.NAME, tag))
     with open(path, 'w') as f:
@@ -248,8 +252,8 @@ def run_batch(mod_name, prop, tier, seed, n_runs, cfg=None, jobs=None, wall_cap=
     }
     if extra_evidence:
         ev['coverage'].update(extra_evidence)
-    os.makedirs(os.path.join(VERIF, 'evidence'), exist_ok=True)
-    with open(os.path.join(VERIF, 'evidence', prop + '.json'), 'w') as f:
+    os.makedirs(os.path.join(OUT, 'evidence'), exist_ok=True)
+    with open(os.path.join(OUT, 'evidence', prop + '.json'), 'w') as f:
         json.dump(ev, f, indent=1, sort_keys=True, default=str)
 
     for ln in lines:
